@@ -3,23 +3,23 @@ import json
 from common import exc_in_lark, InfraError
 import earleylib
 
-KNOWN_F6 = {'grammar': 'start: X "c"\nX: /a|ab/\n', 'text': 'abc', 'lexer': 'dynamic_complete'}
-
-
-def replay_known(res):
+def replay_known(ctx, res):
     from lark import Lark
     from lark.exceptions import UnexpectedInput
-    p = Lark(KNOWN_F6['grammar'], parser='earley', lexer='dynamic_complete')
-    try:
-        p.parse(KNOWN_F6['text']); ok = True
-    except UnexpectedInput:
-        ok = False
-    if not ok:
-        res.known_hits.append(('F6', 'dynamic_complete explores only the regex engine\'s preferred match and its truncations: %r rejects %r although X=/a|ab/ matches "ab"' % (KNOWN_F6['grammar'], KNOWN_F6['text'])))
+    for f in ctx['known']:
+        if f['id'] == 'F6' and f['status'] == 'open':
+            w = f['witness']
+            p = Lark(w['grammar'], parser='earley', lexer=w['lexer'])
+            try:
+                p.parse(w['text']); ok = True
+            except UnexpectedInput:
+                ok = False
+            if not ok:
+                res.known_hits.append(('F6', '%s: %r rejects %r' % (f['what'], w['grammar'], w['text'])))
 
 
 def run(ctx, res):
-    replay_known(res)
+    replay_known(ctx, res)
     stream, problems = earleylib.earley_stream(ctx, 1, 450, 9000)
     for job, st, detail in problems:
         if st == 'exc':
